@@ -14,7 +14,7 @@ CHECKS = {
         level="exploration", ref="DESIGN.md section 4 C02",
         technique="property-based testing (Hypothesis-generated schemas): compile everything exp2cxx emits, dump the run-time dictionary through its public getters and compare two-sided with the schema model (reference attribute order of ISO 10303-21 11.2.5.2)",
         text="Every generated schema is translated by the tree's exp2cxx, compiled and linked (a compile error of generated code is a violation), and the registry dump - entities with supertypes/subtypes/abstract flag/attributes in declaration order (explicit, redeclared, derived, inverse; name, optionality, type incl. aggregate bounds and flags), named types (underlying type, enumeration items in order, select members, aggregate kind/bounds/flags) and the attribute list of a fresh instance of every entity - must equal the model, nothing missing and nothing extra.",
-        note="Accessor/mutator pairs are discovered from the generated headers and round-tripped for INTEGER/REAL/STRING/BOOLEAN/LOGICAL/BINARY/enumeration/entity-reference attributes (aggregate- and select-valued pairs are counted, not exercised). Open findings F22, F38, F48 are matched by signature / fixed probes. The fixed zoo schema (lib/zoo.py) is explored in every run; identifiers include runs of underscores."),
+        note="Accessor/mutator pairs are discovered from the generated headers and round-tripped for INTEGER/REAL/STRING/BOOLEAN/LOGICAL/BINARY/enumeration/entity-reference attributes (aggregate- and select-valued pairs are counted, not exercised). Open findings F22, F38, F48, F89 are matched by signature / fixed probes. The fixed zoo schema (lib/zoo.py) is explored in every run, and so is the as-found schema of the repaired defect F91 (c02.REGRESSION: a shape the generator reached with one seed in eight); identifiers include runs of underscores."),
     "C03": dict(
         level="fault_enumeration", ref="DESIGN.md section 4 C03",
         technique="property-based testing (Hypothesis) with exhaustive enumeration of single faults (class x attribute occurrence x instance position) per generated conforming population; oracle: severity/exit status threshold + confinement against the generator's model",
